@@ -455,6 +455,7 @@ def judge_ack(rec, prog, info):
     watch = {}         # thread -> facts about its cancel/amend call in progress
     cancelled = set()  # ids taken out for good by a cancel / price move and not added again
     stray = {}         # id -> (thread, op) of a call that took it out without being a match or an update of that order
+    took = {}          # thread -> ids its call in progress has taken out of the map and not re-inserted
     viol, known = None, None
     for tag, rest in rec["ev"]:
         if tag == "B":
@@ -474,6 +475,7 @@ def judge_ack(rec, prog, info):
             if ev.startswith("REM ") and not ev.endswith(" -"):
                 k = ev.split(" ")[1]
                 in_map.discard(k)
+                took.setdefault(tid, []).append(k)
                 if op.startswith("MATCH") or (_amend_like(op, price) and _target(op) == k):
                     held[k] = tid
                     last_rem[tid] = k
@@ -492,6 +494,8 @@ def judge_ack(rec, prog, info):
             elif ev.startswith("INS "):
                 k = gen.parse_order(ev[4:])["id"]
                 stray.pop(k, None)
+                if k in took.get(tid, []):
+                    took[tid].remove(k)
                 if k in cancelled:
                     if op.startswith("ADD ") and gen.parse_order(op[4:])["id"] == k:
                         cancelled.discard(k)
@@ -515,7 +519,11 @@ def judge_ack(rec, prog, info):
         elif tag == "R":
             tid, _, r = rest.split(" ", 2)
             tid = int(tid)
-            open_op.pop(tid, None)
+            op_done = open_op.pop(tid, None) or ""
+            gone = took.pop(tid, [])
+            if r == "upd:err" and gone:
+                # the call was refused, yet it took an order out of the book and did not put it back
+                viol = viol or ("`%s` reports an error but removed order %s from the book" % (op_done, gone[0]))
             w = watch.pop(tid, None)
             if w and r == "upd:ok:-" and w["resting"] and not w["removed"]:
                 if w.get("stray"):
